@@ -128,7 +128,9 @@ class CProg:
         cs = self.row_cons(vs) + self.bound_cons(vs) + self.soc_cons(vs) + self.pcone_cons(vs)
         if self.xmat:
             if expfun is None:
-                raise ValueError('program has exponential cones; need expfun')
+                from .oracle import expcone
+                z3 = z3mod()
+                expfun = lambda a, b, c: expcone(z3, a, b, c)
             cs += self.exp_cons(vs, expfun)
         if self.lmi:
             raise ValueError('LMI programs are outside the encodable class')
@@ -197,6 +199,12 @@ class CProg:
         cs = self.row_cons(vs, blk['rows'])
         cs += self.bound_cons(vs, sorted(blk['locals'] | blk['iface']))
         cs += self.soc_cons(vs, [self.qmat[k] for k in blk['cones']])
+        if blk.get('xcones'):
+            from .oracle import expcone
+            z3 = z3mod()
+            for k in blk['xcones']:
+                a, b, c = self.xmat[k]
+                cs.append(expcone(z3, vs[a], vs[b], vs[c]))
         if blk.get('pcones'):
             cs += self.pcone_cons(vs, set(blk['pcones']))
         return cs
